@@ -54,7 +54,7 @@ func (w *dnsWorld) c10Expected() map[[4]uint32]bpfDomainRouting {
 		}
 		_, ips := w.decodeAnswers(c.Answer)
 		for _, ip := range ips {
-			if ip.IsUnspecified() {
+			if ip.Unmap().IsUnspecified() { // 0.0.0.0, :: and the 4-in-6 spelling of 0.0.0.0 (the kernel key of 0.0.0.0)
 				continue
 			}
 			kk := dnsKernKey(ip)
@@ -482,7 +482,7 @@ func (w *dnsWorld) c10OverlapProbes(e *dnsEntryObs) {
 		}
 		for _, x := range o.ips {
 			for _, y := range e.ips {
-				if x == y && !x.IsUnspecified() {
+				if x == y && !x.Unmap().IsUnspecified() {
 					sharesWithOther = true
 				}
 			}
